@@ -34,7 +34,9 @@ ASSUMPTIONS = ['MiniDB writes exactly the registered objects plus objects newly 
 def bounds(tier):
     return ('quick: cover families, trees N=5 @2/2 with 1-op transactions, N=4 @2/2 with <=2-op '
             'transactions, N=5 @3/2 and 2/3 1-op, leaf kinds N=4; other families N=4 1-op; '
-            'default-size scripted boundary scenario; thorough: all families, N=6 1-op, N=5 2-op, N=4 3-op')
+            'default-size scripted boundary scenario; thorough: cover families N=6 1-op, N=5 2-op, N=4 3-op, '
+            'thinning 11 keys x 3 orders, sizes 3/2 2/3 3/3; the other 15 families at the quick depth of the '
+            'cover families')
 
 
 def required_guards(tier):
@@ -44,13 +46,14 @@ def required_guards(tier):
 
 def configs(tier):
     out = []
-    deep = F.COVER if tier == 'quick' else F.FAMILIES
+    deep = F.COVER
     for fam in F.FAMILIES:
         for impl in F.IMPLS:
             c = impl == 'c'
             for kind in F.TREE_KINDS:
-                if fam in deep:
-                    if tier == 'quick':
+                if fam in deep or tier != 'quick':
+                    if tier == 'quick' or fam not in deep:
+                        # quick tier for the cover families = thorough tier for the other 15
                         out.append((fam, kind, impl, (2, 2), 5, 1, 20 if c else 60))
                         big = c and kind == 'BTree' and fam in ('OO', 'IF', 'fs', 'QL')
                         out.append((fam, kind, impl, (2, 2), 5 if big else 4, 2, 200 if big else 30))
@@ -65,7 +68,7 @@ def configs(tier):
                         out.append((fam, kind, impl, (2, 2), 5 if c else 4, 2, 300))
                         out.append((fam, kind, impl, (2, 2), 4 if c else 3, 3, 300))
                         for order in ('asc', 'desc', 'mid'):
-                            out.append((fam, kind, impl, (2, 2), 11 if c else 10, 'thin:' + order, 300))
+                            out.append((fam, kind, impl, (2, 2), 11 if c else 9, 'thin:' + order, 300))
                         for sz in ((3, 2), (2, 3), (3, 3)):
                             out.append((fam, kind, impl, sz, 5, 1, 30))
                 else:
